@@ -205,12 +205,12 @@ def possible_classes(ctx, path, o):
     if z3.is_int_value(cid):
         return [ctx.ct.by_cid[cid.as_long()]]
     if o.ann is not None and o.ann[0] == "obj":
-        return o.ann[1].all_subclasses()
+        return o.ann[1].instance_classes()
     if o.ann is not None and o.ann[0] == "union":
         out = []
         for a in o.ann[1]:
             if a[0] == "obj":
-                out += [c for c in a[1].all_subclasses() if c not in out]
+                out += [c for c in a[1].instance_classes() if c not in out]
         return out or None
     return None
 
@@ -225,6 +225,17 @@ def obj_attr(ctx, fr, path, o, attr, node=None):
         # unknown class: plain field read
         yield path, ctx.read_field(path, o, attr, None)
         return
+    # dynamic dispatch through an abstract contract: if a common ancestor declares the method and a contract is
+    # registered for it, the call is checked against that contract (each override is verified against it)
+    if len(classes) > 1 and ctx.registry is not None:
+        common = None
+        for anc in classes[0].mro():
+            if attr in anc.methods and all(anc in c.mro() for c in classes):
+                common = anc
+        if common is not None and ctx.registry.lookup(common.methods[attr].target) is not None \
+                and common.methods[attr].kind == "method":
+            yield path, Bound(o, common.methods[attr])
+            return
     # group classes by how they resolve the attribute
     groups = {}
     for ci in classes:
@@ -463,6 +474,9 @@ def py_eq(ctx, fr, p, a, b):
             return
     ka, kb = ctx.kind(a), ctx.kind(b)
     scal = ("VStr", "VNone", "VCls", "VFun", "VFloat")
+    if a.ann == ("counter",) or b.ann == ("counter",):
+        yield p, simp(a.t == b.t)
+        return
     if ka in scal or kb in scal:
         yield p, simp(a.t == b.t)
         return
@@ -471,6 +485,29 @@ def py_eq(ctx, fr, p, a, b):
             yield p, simp(a.t == b.t)
         else:
             yield p, simp(ctx.as_int(p, a) == ctx.as_int(p, b))
+        return
+    if ka == "VRec" and kb == "VRec":
+        ta, tb = simp(a.t), simp(b.t)
+        if smt.ctor(ta) == "VRec" and smt.ctor(tb) == "VRec":
+            ka_, va_ = smt.unit_items(ta.arg(0)), smt.unit_items(ta.arg(1))
+            kb_, vb_ = smt.unit_items(tb.arg(0)), smt.unit_items(tb.arg(1))
+            if None not in (ka_, va_, kb_, vb_) and all(smt.ctor(k) == "VStr" and z3.is_string_value(k.arg(0)) for k in ka_ + kb_):
+                da = {k.arg(0).as_string(): v for k, v in zip(ka_, va_)}
+                db = {k.arg(0).as_string(): v for k, v in zip(kb_, vb_)}
+                if set(da) != set(db):
+                    yield p, z3.BoolVal(False)
+                    return
+                keys = sorted(da)
+
+                def go(q, i, acc):
+                    if i == len(keys):
+                        yield q, acc
+                        return
+                    for r, c in py_eq(ctx, fr, q, Val(da[keys[i]]), Val(db[keys[i]])):
+                        yield from go(r, i + 1, simp(z3.And(acc, c)))
+                yield from go(p, 0, z3.BoolVal(True))
+                return
+        yield p, simp(a.t == b.t)
         return
     if ka == "VSet" and kb == "VSet":
         yield p, simp(ctx.set_arr(p, a) == ctx.set_arr(p, b))
@@ -856,9 +893,16 @@ def py_slice(ctx, p, seq, lo, hi, is_str):
         if x is None:
             return dflt
         return z3.If(x < 0, z3.If(n + x < 0, z3.IntVal(0), n + x), z3.If(x > n, n, x))
-    lo_t, hi_t = clamp(lo, z3.IntVal(0)), clamp(hi, n)
-    ln = z3.If(hi_t - lo_t < 0, z3.IntVal(0), hi_t - lo_t)
-    return simp(z3.SubString(seq, lo_t, ln)) if is_str else simp(z3.Extract(seq, lo_t, ln))
+    lo_t, hi_t = ctx.resolve(p, clamp(lo, z3.IntVal(0))), ctx.resolve(p, clamp(hi, n))
+    ln = ctx.resolve(p, z3.If(hi_t - lo_t < 0, z3.IntVal(0), hi_t - lo_t))
+    if is_str:
+        return simp(z3.SubString(seq, lo_t, ln))
+    r = z3.Extract(seq, lo_t, ln)
+    rs = simp(r)
+    # keep the extract form (z3 rewrites guarded extracts into ite-terms, which hides the sub-range)
+    if z3.is_app(rs) and rs.decl().kind() == z3.Z3_OP_ITE:
+        return r
+    return rs
 
 
 def e_Subscript(ctx, fr, path, node):
@@ -908,7 +952,7 @@ def subscript(ctx, fr, q, o, i, node=None):
             ii = simp(idx)
             if z3.is_int_value(ii) and -len(o.ann[1]) <= ii.as_long() < len(o.ann[1]):
                 ea = o.ann[1][ii.as_long()]
-        t = simp(s[norm_index(n, idx)])
+        t = smt.nth(s, simp(norm_index(n, idx)))
         own = "imm" if not ann_mutable(ea) else o.own
         v = Val(t, ea, own=own, deep=o.deep, src=("item", o, i))
         f = ann_fact(t, ea, ctx.ct)
@@ -932,6 +976,10 @@ def subscript(ctx, fr, q, o, i, node=None):
         if f is not None:
             q.assume(z3.Implies(z3.Select(has, i.t), f), "declared dict value shapes")
         return v
+    if k is None and smt.ctor(simp(i.t)) == "VStr":
+        ctx.safety(q, V.is_VRec(simp(o.t)), "subscript with a str key on a dict", _where(node))
+        instantiate_rset(ctx, q, simp(o.t), simp(i.t))
+        return rec_lookup(ctx, q, o, i, node)
     raise Unsupported(f"subscript on value of unknown kind ({_where(node)})")
 
 
